@@ -252,6 +252,9 @@ static void run_case(uint64_t case_idx) {
     size_t nops = 10 + (size_t)mon_below(r, 291);
     /* phases bias the op mix so queues get both large and drained */
     for (size_t op = 0; op < nops && mon_violations() < 5; ++op) {
+        if (mon_chance(r, 1, 3)) {
+            mon_poison_last_error(r);
+        }
         unsigned phase = (unsigned)((op * 4) / nops);
         unsigned pick = (unsigned)mon_below(r, 100);
         unsigned push_w = (phase == 0 || phase == 2) ? 55 : 25;
@@ -280,7 +283,7 @@ static void run_case(uint64_t case_idx) {
             size_t snaplen;
             snapshot(&snap, &snaplen);
             bool had_bp = s_q.backpointers.data != NULL;
-            aws_reset_error();
+            mon_poison_last_error(&mon_case_rng);
             int rc;
             if (with_handle) {
                 s_op = "push_ref";
@@ -347,7 +350,7 @@ static void run_case(uint64_t case_idx) {
             mon_fp(3);
             uint8_t out[MAX_ITEM];
             memset(out, 0xEE, sizeof(out));
-            aws_reset_error();
+            mon_poison_last_error(&mon_case_rng);
             int rc = aws_priority_queue_pop(&s_q, out);
             mon_sample(" pop%s", rc ? "=ERR" : "");
             if (s_n == 0) {
@@ -422,7 +425,7 @@ static void run_case(uint64_t case_idx) {
             s_op = "top";
             mon_fp(4);
             void *top = NULL;
-            aws_reset_error();
+            mon_poison_last_error(&mon_case_rng);
             int rc = aws_priority_queue_top(&s_q, &top);
             if (s_n == 0) {
                 MON_CHECK(rc != AWS_OP_SUCCESS && aws_last_error() == AWS_ERROR_PRIORITY_QUEUE_EMPTY, "C06:empty-top",
@@ -459,7 +462,7 @@ static void run_case(uint64_t case_idx) {
             size_t snaplen;
             snapshot(&snap, &snaplen);
             size_t ix_before = hd->node.current_index;
-            aws_reset_error();
+            mon_poison_last_error(&mon_case_rng);
             s_op = "remove";
             int rc = aws_priority_queue_remove(&s_q, out, &hd->node);
             mon_sample(" remove(h%zu:%s)%s", h, hd->state == 1 ? "live" : "dead", rc ? "=ERR" : "");
